@@ -222,6 +222,46 @@ func (u *vC08U) caseTTLs() {
 		"desc": fmt.Sprintf("ns ttls %v -> %d; ds ttls %v -> %d", ns, info.nsTTL, ds, dmin)})
 }
 
+// caseTTLsFixed replays one fixed pair of RRset TTL lists (corpus: minimal inputs of seeded changes).
+func (u *vC08U) caseTTLsFixed(nsTTLs, dsTTLs []uint32) {
+	msg := new(dns.Msg)
+	var ns, ds []string
+	for i, t := range nsTTLs {
+		msg.Ns = append(msg.Ns, &dns.NS{Hdr: dns.RR_Header{Name: "a.tld.", Rrtype: dns.TypeNS, Class: dns.ClassINET, Ttl: t}, Ns: fmt.Sprintf("ns%d.a.tld.", i)})
+		ns = append(ns, fmt.Sprintf("%d", t))
+	}
+	var dsrr []dns.RR
+	for i, t := range dsTTLs {
+		dsrr = append(dsrr, &dns.DS{Hdr: dns.RR_Header{Name: "a.tld.", Rrtype: dns.TypeDS, Class: dns.ClassINET, Ttl: t}, KeyTag: uint16(i), Algorithm: 13, DigestType: 2, Digest: "00"})
+		ds = append(ds, fmt.Sprintf("%d", t))
+	}
+	info := (&Resolver{}).extractDelegationInfo(msg)
+	dmin := minRRSetTTL(dsrr)
+	u.o.emit(map[string]any{"k": "corpus-rrsetTTL", "go_fail": "", "nontrivial": len(nsTTLs) > 1,
+		"coq":  fmt.Sprintf("CaseTTLs [%s]%%Z %d [%s]%%Z %d", strings.Join(ns, ";"), info.nsTTL, strings.Join(ds, ";"), dmin),
+		"desc": fmt.Sprintf("corpus: ns ttls %v -> %d; ds ttls %v -> %d", ns, info.nsTTL, ds, dmin)})
+}
+
+func (u *vC08U) corpus(t *testing.T) {
+	dir := os.Getenv("VERIF_CORPUS")
+	if dir == "" {
+		return
+	}
+	raw, err := os.ReadFile(filepath.Join(dir, "unit_ttls.json"))
+	if err != nil {
+		return
+	}
+	var items []struct{ NS, DS []uint32 }
+	if err := json.Unmarshal(raw, &items); err != nil {
+		t.Fatalf("corpus unit_ttls.json: %v", err)
+	}
+	for _, it := range items {
+		if len(it.NS) > 0 {
+			u.caseTTLsFixed(it.NS, it.DS)
+		}
+	}
+}
+
 func (u *vC08U) caseEntry() {
 	stored := u.pickT()
 	ttl := []int64{int64(5 * time.Second), int64(time.Minute), int64(time.Hour), int64(24 * time.Hour)}[u.r.Intn(4)]
@@ -333,15 +373,40 @@ func (vC08AbortQueryer) Query(context.Context, *dns.Msg) (*dns.Msg, error) {
 	return nil, context.Canceled
 }
 
+// vC08JumpQueryer is a slow nameserver-address lookup: while it is in flight the delegation
+// cache's clock moves on to base+to (the lookup itself ends without an address, which
+// lookupV4Nss treats as "try the next host").
+type vC08JumpQueryer struct {
+	skew *atomic.Int64
+	to   int64
+}
+
+func (j vC08JumpQueryer) Query(context.Context, *dns.Msg) (*dns.Msg, error) {
+	j.skew.Store(j.to)
+	return nil, errors.New("vc08: lame nameserver address lookup")
+}
+
 // casePD drives Resolver.processDelegation directly.
 func (u *vC08U) casePD(r *Resolver, sinkSrv *vC08Srv) {
 	sink := sinkSrv.addr
 	chain := []string{".", "tld.", "a.tld.", "s.a.tld.", "www.s.a.tld."}
+	// focus (a quarter of the calls): a NESTED delegation whose ancestor lease is short - around or below the
+	// one-minute cap of a provisional entry and below the referral's own NS TTL - with a partly glue-less
+	// NS set, and a nameserver address lookup that aborts or is slow: the region where the lease of the
+	// provisional entry matters because the final store does not happen or comes too late
+	focus := u.r.Intn(4) == 0
 	i := u.r.Intn(3)
+	if focus && i == 0 {
+		i = 1 + u.r.Intn(2)
+	}
 	j := i + 1 + u.r.Intn(3-i)
 	rsz, z, q := chain[i], chain[j], chain[4]
 	junk := ""
-	switch u.r.Intn(10) {
+	jsel := u.r.Intn(10)
+	if focus {
+		jsel = 9
+	}
+	switch jsel {
 	case 0: // self referral
 		z, junk = rsz, "self"
 	case 1: // upward referral
@@ -354,13 +419,16 @@ func (u *vC08U) casePD(r *Resolver, sinkSrv *vC08Srv) {
 			rsz = "tld."
 		}
 	}
-	incoherent := u.r.Intn(12) == 0
+	incoherent := u.r.Intn(12) == 0 && !focus
 	h := int64(time.Hour)
 	nsTTL := []uint32{0, 1, 4, 30, 3600, 43199, 43200, 43201, 86400, 172800}[u.r.Intn(10)]
+	if focus {
+		nsTTL = []uint32{4, 30, 61, 3600, 43200, 86400}[u.r.Intn(6)]
+	}
 	// ancestor cut
-	rsCutOK := rsz != "." && u.r.Intn(4) != 0
+	rsCutOK := rsz != "." && (u.r.Intn(4) != 0 || focus)
 	var rsCut int64
-	switch u.r.Intn(5) {
+	switch u.r.Intn(6) {
 	case 0:
 		rsCut = 10 * int64(time.Second)
 	case 1:
@@ -369,11 +437,17 @@ func (u *vC08U) casePD(r *Resolver, sinkSrv *vC08Srv) {
 		rsCut = 12*h + 30*int64(time.Minute)
 	case 3:
 		rsCut = 30 * h
+	case 4:
+		// an ancestor lease around the one-minute cap of a provisional entry
+		rsCut = []int64{2, 45, 59, 61, 90}[u.r.Intn(5)] * int64(time.Second)
 	default:
 		rsCut = int64(nsTTL)*int64(time.Second) + int64(u.r.Intn(3)-1)*int64(time.Minute)
 		if rsCut <= 0 {
 			rsCut = int64(time.Minute)
 		}
+	}
+	if focus {
+		rsCut = []int64{1, 2, 5, 10, 45, 59}[u.r.Intn(6)] * int64(time.Second)
 	}
 	if !rsCutOK {
 		rsCut = 0
@@ -382,7 +456,13 @@ func (u *vC08U) casePD(r *Resolver, sinkSrv *vC08Srv) {
 	skew := []int64{0, 0, 0, int64(time.Second), 30 * int64(time.Second), -int64(time.Second)}[u.r.Intn(6)]
 	// pre-seeded entry for z: none, dead, live (shorter / longer than the referral)
 	preKind := u.r.Intn(5)
-	abort := u.r.Intn(8) == 0
+	abort := u.r.Intn(5) == 0
+	if focus {
+		if preKind == 1 {
+			preKind = 0 // a dead entry under the key, never a live one
+		}
+		abort = u.r.Intn(2) == 0
+	}
 	anchor := true
 
 	dc := authority.NewCache()
@@ -413,6 +493,9 @@ func (u *vC08U) casePD(r *Resolver, sinkSrv *vC08Srv) {
 
 	// the referral
 	nNS := 1 + u.r.Intn(3)
+	if focus && nNS < 2 {
+		nNS = 2 + u.r.Intn(2)
+	}
 	noGlue := 0
 	resp := new(dns.Msg)
 	resp.SetQuestion(q, dns.TypeA)
@@ -426,7 +509,7 @@ func (u *vC08U) casePD(r *Resolver, sinkSrv *vC08Srv) {
 		}
 		resp.Ns = append(resp.Ns, &dns.NS{Hdr: dns.RR_Header{Name: z, Rrtype: dns.TypeNS, Class: dns.ClassINET, Ttl: nsTTL}, Ns: host})
 		hosts[host] = struct{}{}
-		if k == 0 || u.r.Intn(2) == 0 {
+		if (k == 0 || u.r.Intn(2) == 0) && !(focus && k == nNS-1 && noGlue == 0) {
 			resp.Extra = append(resp.Extra, &dns.A{Hdr: dns.RR_Header{Name: host, Rrtype: dns.TypeA, Class: dns.ClassINET, Ttl: nsTTL}, A: net.IPv4(192, 0, 2, byte(50+k))})
 		} else {
 			noGlue++
@@ -437,6 +520,8 @@ func (u *vC08U) casePD(r *Resolver, sinkSrv *vC08Srv) {
 	}
 	info := r.extractDelegationInfo(resp)
 	nprov := noGlue
+	skew2 := skew
+	slow := false
 	if abort {
 		var aq middleware.Queryer = vC08AbortQueryer{}
 		r.queryer.Store(&aq)
@@ -445,6 +530,28 @@ func (u *vC08U) casePD(r *Resolver, sinkSrv *vC08Srv) {
 		} else {
 			abort = false
 		}
+	} else if noGlue > 0 && (focus || u.r.Intn(3) == 0) {
+		// a slow address lookup: the delegation cache's clock has moved on when the next provisional
+		// entry / the final store is made (past the ancestor cut, past the one-minute cap, past the
+		// referral's own lease, or just a little)
+		slow = true
+		switch u.r.Intn(5) {
+		case 0:
+			skew2 = rsCut + int64(time.Second)
+		case 1:
+			skew2 = 61 * int64(time.Second)
+		case 2:
+			skew2 = int64(nsTTL)*int64(time.Second) + int64(time.Second)
+		case 3:
+			skew2 = skew + 5*int64(time.Second)
+		default:
+			skew2 = rsCut - int64(time.Second)
+		}
+		if skew2 < skew {
+			skew2 = skew
+		}
+		var jq middleware.Queryer = vC08JumpQueryer{skew: &clockSkew, to: skew2}
+		r.queryer.Store(&jq)
 	} else {
 		r.queryer.Store(nil)
 	}
@@ -541,15 +648,17 @@ func (u *vC08U) casePD(r *Resolver, sinkSrv *vC08Srv) {
 		kind = "pd-aborted"
 	case preOK:
 		kind = "pd-miss-over-dead-entry"
+	case slow:
+		kind = "pd-miss-slow-lookup"
 	}
 	u.o.emit(map[string]any{"k": kind, "go_fail": goFail, "fkey": fkey, "nontrivial": outcome != 0,
-		"coq": fmt.Sprintf("CasePD %s %s %s %s %s 2 %s %d %s %d %s %s %s %s %s %d %s %s %s",
+		"coq": fmt.Sprintf("CasePD %s %s %s %s %s 2 %s %d %s %d %s %s %s %s %s %s %d %s %s %s",
 			u.labs.zone(rsz), u.cutTerm(rsCutOK, rsCut, rsKeyZone), u.labs.zone(q), pre,
-			u.labs.zone(z), vC08B(coh), nsTTL, dsTerm, nprov, vC08B(abort), vC08B(anchor), vC08Z(skew), vC08Z(t0), vC08Z(t1),
+			u.labs.zone(z), vC08B(coh), nsTTL, dsTerm, nprov, vC08B(abort), vC08B(anchor), vC08Z(skew), vC08Z(skew2), vC08Z(t0), vC08Z(t1),
 			outcome, storedTerm, u.cutTerm(!md.IsZero(), int64(md.Sub(u.base)), mz),
 			u.cutTerm(!rs.cutDeadline.IsZero(), int64(rs.cutDeadline.Sub(u.base)), rz)),
-		"desc": fmt.Sprintf("rs zone=%s cut=%v/%d q=%s referral=%s(%s) nsTTL=%d ds=%s coherent=%v pre=%v/%d skew=%d noGlue=%d abort=%v -> err=%v stored=%s metaCut=%v rsCut=%v [t0=%d t1=%d]",
-			rsz, rsCutOK, rsCut, q, z, junk, nsTTL, dsDesc, coh, preOK, preExp, skew, noGlue, abort, err, storedDesc, md.Sub(u.base), rs.cutDeadline.Sub(u.base), t0, t1)})
+		"desc": fmt.Sprintf("rs zone=%s cut=%v/%d q=%s referral=%s(%s) nsTTL=%d ds=%s coherent=%v pre=%v/%d skew=%d skew2=%d noGlue=%d abort=%v -> err=%v stored=%s metaCut=%v rsCut=%v [t0=%d t1=%d]",
+			rsz, rsCutOK, rsCut, q, z, junk, nsTTL, dsDesc, coh, preOK, preExp, skew, skew2, noGlue, abort, err, storedDesc, md.Sub(u.base), rs.cutDeadline.Sub(u.base), t0, t1)})
 }
 
 func TestVerifC08Unit(t *testing.T) {
@@ -569,6 +678,7 @@ func TestVerifC08Unit(t *testing.T) {
 	cm := cachemw.New(cfg)
 	defer cm.Stop()
 
+	u.corpus(t)
 	for c := 0; c < n; c++ {
 		switch c % 10 {
 		case 0:
